@@ -144,6 +144,11 @@ def f_fmod(a, b):
         x, y = fp_to_py(a), fp_to_py(b)
         try: return fp_const(math.fmod(x, y))
         except ValueError: return fp_const(float('nan'))
+    if fp_is_conc(b) and fp_to_py(b) == 1.0:
+        # x % 1.0 is exact: x - trunc(x) with the sign of x (NaN for non-finite x)
+        r = z3.fpSub(RNE, a, z3.fpRoundToIntegral(RTZ, a))
+        r = z3.If(z3.And(z3.fpIsZero(r), z3.fpIsNegative(a)), fp_const(-0.0), r)
+        return z3.If(z3.Or(z3.fpIsInf(a), z3.fpIsNaN(a)), fp_const(float('nan')), r)
     return uf_f64('fmod', a, b)
 
 
@@ -261,7 +266,12 @@ DecSort = z3.DeclareSort('Dec')
 
 
 def dec_const(text):
-    return ('dec', uf('dec_lit', z3.StringSort(), DecSort)(z3.StringVal(text)))
+    """canonical abstract value of a decimal text: dec_of(coefficient, scale)"""
+    neg = text.startswith('-'); t = text.lstrip('+-')
+    if '.' in t: ip, fp = t.split('.')
+    else: ip, fp = t, ''
+    m = int((ip + fp) or '0')
+    return dec_lit_sym(-m if neg else m, len(fp))
 
 
 def dec_lit_sym(digits_term_int, scale):
@@ -904,9 +914,9 @@ def _(e, st, raw, n, a, m):
     intds = [c - 48 for c, k in zip(s[:cls.index('.')] if '.' in cls else s, cls) if k == 'd']
     bound = [int(ch) for ch in '79228162514264337593543950335']
     fits = digits_le(intds, bound) if intds else True
-    if is_conc_int(num):
-        txt = ''.join(chr(c) for c in s)
-        val = dec_const(txt)
+    if len([k for k in cls if k == 'd']) > 28:
+        # beyond 28 significant digits from_str rounds (and may shorten the scale): kept abstract
+        val = ('dec', uf('dec_rounded', z3.IntSort(), z3.IntSort(), DecSort)(num if is_sym(num) else z3.IntVal(num), z3.IntVal(frac)))
     else:
         val = dec_lit_sym(num, frac)
     if fits is True: return [(T, ok(val))]
